@@ -32,7 +32,26 @@ void pconv(int i, int j, const char *A_, const char *B_, const char *C_, long lo
     long long n = 0, mism = 0, nexact = 0;
     Rng rng(seed ^ (uint64_t)(i * 131 + j));
     const long long l1 = (long long)std::max<long double>((long double)lo, (long double)std::numeric_limits<R1>::lowest());
-    for (long long xv : window(l1, hi, 300, seed + i * 7 + j, 3000)) {
+    std::vector<long long> xs = window(l1, hi, 300, seed + i * 7 + j, 3000);
+    {   // inputs whose exact image is an integer of the destination, spread over the whole source range (incl. the top bit of unsigned sources)
+        const long double r2lo = std::is_floating_point<R2>::value ? -9.0e15L : (long double)std::numeric_limits<R2>::lowest();
+        const long double r2hi = std::is_floating_point<R2>::value ? 9.0e15L : (long double)std::numeric_limits<R2>::max();
+        const i128 s1lo = (i128)std::numeric_limits<R1>::lowest(), s1hi = (i128)std::numeric_limits<R1>::max();
+        for (int t = 0; t < 400; ++t) {
+            i128 xx = (i128)(rng.next() % (uint64_t)((s1hi - s1lo) > (i128)0x7fffffffffffffffLL ? 0x7fffffffffffffffULL : (uint64_t)(s1hi - s1lo) + 1)) + s1lo;
+            if (t % 4 == 0) xx = s1hi - (i128)(rng.next() % 4096);
+            if (t % 4 == 1 && std::is_unsigned<R1>::value) xx = (s1hi / 2) + 1 + (i128)(rng.next() % (uint64_t)(s1hi / 2));
+            i128 e0 = (xx * A + B) / C;                       // nearby exact image
+            i128 numr = e0 * C - B;
+            if (A == 0 || numr % A != 0) { xx -= ((xx * A + B) % C) / (A > 0 ? A : 1); numr = xx * A; if (((xx * A + B) % C) != 0) continue; }
+            else xx = numr / A;
+            i128 ee = (xx * A + B) / C;
+            if (xx < s1lo || xx > s1hi || xx > (i128)0x7fffffffffffffffLL || (long double)ee < r2lo || (long double)ee > r2hi) continue;
+            if (std::fabs((long double)xx * (long double)A) > 1.8e19L) continue;    // beyond every calculation type
+            xs.push_back((long long)xx);
+        }
+    }
+    for (long long xv : xs) {
         R1 x = (R1)xv;
         AUV_INFLIGHT("point conversion unit %d (%s) -> unit %d (%s) x=%lld", i, rep_name<R1>(), j, rep_name<R2>(), xv);
         auto p = make_quantity_point<U1>(x);
@@ -47,13 +66,24 @@ void pconv(int i, int j, const char *A_, const char *B_, const char *C_, long lo
         i128 num = (i128)xv * A + B;
         bool exact = (num % C) == 0;
         i128 e = exact ? num / C : 0;
-        bool inr = exact && e >= (i128)std::numeric_limits<R2>::lowest() && e <= (i128)std::numeric_limits<R2>::max();
-        bool bad = (r2 != res) || (r3 != res) || (r4 != res) || !unit_only_ok || (inr && ((i128)res != e || ub));
+        const bool f2 = std::is_floating_point<R2>::value;
+        // the domain of the claim, as in PointBig.tla but with the unreduced A, B, C (so it is contained in the specification's domain)
+        typedef typename std::conditional<(sizeof(R1) >= sizeof(R2)), R1, R2>::type Calc;
+        const long double lim = f2 ? std::ldexp(1.0L, std::numeric_limits<R2>::digits)
+                                   : (std::is_signed<Calc>::value ? (long double)std::numeric_limits<Calc>::max()
+                                      : ((std::is_unsigned<R1>::value && std::is_unsigned<R2>::value && B == 0) ? (long double)std::numeric_limits<Calc>::max() : 2147483647.0L));
+        using CP = CommonPointUnitT<U1, U2>;
+        const long double k1 = get_value<long double>(unit_ratio(U1{}, CP{})), k2 = get_value<long double>(unit_ratio(U2{}, CP{}));
+        const bool hsmall = std::fabs((long double)xv) * k1 + std::fabs((long double)B) / (long double)C * k2 <= lim * 0.999L && k2 <= 2147483647.0L;
+        bool inr = hsmall && exact && (f2 ? (e > -((i128)1 << 53) && e < ((i128)1 << 53)) : (e >= (i128)std::numeric_limits<R2>::lowest() && e <= (i128)std::numeric_limits<R2>::max()));
+        bool resbad = f2 ? !(std::fabs((long double)res - (long double)e) <= (f2 && sizeof(R2) == 4 ? 1e-4L : 1e-9L) * (std::fabs((long double)xv * (long double)A) + std::fabs((long double)B) + (long double)C) / (long double)C)
+                         : ((i128)res != e);
+        bool bad = (r2 != res) || (r3 != res) || (r4 != res) || !unit_only_ok || (inr && (resbad || (ub && !(std::is_unsigned<R1>::value && std::is_unsigned<R2>::value))));
         if (exact) ++nexact;
         if (bad) ++mism;
         if ((bad && mism <= 25) || (exact && (rng.next() % 16 == 0)) || (!exact && rng.next() % 512 == 0))
-            std::printf("{\"k\":\"pconv\",\"i\":%d,\"j\":%d,\"R1\":\"%s\",\"R2\":\"%s\",\"x\":%s,\"res\":%s,\"cexact\":%d,\"ub\":%d,\"forms\":%d,\"why\":\"%s\"}\n", i, j, rep_name<R1>(), rep_name<R2>(),
-                        wire((i128)xv).c_str(), wire((i128)res).c_str(), (int)exact, ub, (int)((r2 == res) && (r3 == res) && (r4 == res) && unit_only_ok), bad ? "mismatch" : "sample");
+            std::printf("{\"k\":\"pconv\",\"i\":%d,\"j\":%d,\"cp\":%s,\"R1\":\"%s\",\"R2\":\"%s\",\"x\":%s,\"res\":%s,\"resf\":%s,\"cexact\":%d,\"ub\":%d,\"forms\":%d,\"why\":\"%s\"}\n", i, j, unit_mag_json<CP>().c_str(), rep_name<R1>(), rep_name<R2>(),
+                        wire((i128)xv).c_str(), f2 ? wire((i128)0).c_str() : wire((i128)res).c_str(), fwire((long double)res).c_str(), (int)exact, ub, (int)((r2 == res) && (r3 == res) && (r4 == res) && unit_only_ok), bad ? "mismatch" : "sample");
     }
     std::printf("{\"k\":\"ptsum\",\"what\":\"conv\",\"i\":%d,\"j\":%d,\"n\":%lld,\"exact\":%lld,\"mismatches\":%lld}\n", i, j, n, nexact, mism);
 }
